@@ -13,6 +13,15 @@ CHECKS = {
     note="Trusted: CrossHair's str model (splitlines etc.), z3, the reference splitter in props/c17.py. "
          'Bounds: len<=4 (quick) / <=6 (thorough) single string, two strings len<=2/3, pools as listed in evidence.',
     technique='symbolic execution of the real Python functions (CrossHair 0.0.110 + z3), per-path SMT, bounded string lengths'),
+ 'C18': dict(
+    cat='model_checking', ref='DESIGN.md §3 C18',
+    text='Bounded symbolic execution of the real Indentizer/TextBlock.indent code against a direct specification of '
+         'the indenter for a generated family of 63 configurations (spaces 0-6/tab x none/all/first-only x glyph length 1-4): '
+         'confirmed over all paths for every unicode line up to the stated length, and for <=3 lines over a class alphabet incl. '
+         'header handling, list/string form agreement and repeated indentation.',
+    note="Trusted: CrossHair's str model (strip, format padding), z3, the reference indenter in props/c18.py; glyphs are non-blank markers. "
+         'A hunt harness with symbolic width/glyph is bug-hunting only.',
+    technique='symbolic execution of the real Python functions (CrossHair + z3), one condition per indenter configuration'),
 }
 
 NOT_APPLICABLE = {
